@@ -5,7 +5,7 @@ from props._semprop import simple
 from common import prove
 
 MODULE = 'Proofs.Props.C05'
-THEOREMS = ['Facto.C05_invert_correct', 'Facto.C05_invert_involutive', 'Facto.sr_latch_step', 'Facto.latch_inlined_set_priority', 'Facto.rs_latch_partial', 'Facto.rs_latch_not_reset_priority', 'Facto.rs_inlined_not_reset_priority', 'Facto.latch_multiplier', 'Facto.negate_spec', 'Facto.fbRow_sound', 'Facto.rowIs_sound', 'Facto.latch_step_cut', 'Facto.latch_next_eq', 'Facto.const_one_out_bool', 'Facto.latch_cell_end_to_end', 'Facto.mult_law', 'Facto.latch_value_next_eq', 'Facto.latch_value_end_to_end', "Facto.settles_around_cells"]
+THEOREMS = ['Facto.C05_invert_correct', 'Facto.C05_invert_involutive', 'Facto.sr_latch_step', 'Facto.latch_inlined_set_priority', 'Facto.rs_latch_partial', 'Facto.rs_latch_not_reset_priority', 'Facto.rs_inlined_not_reset_priority', 'Facto.rs_latch_repaired', 'Facto.latch_multiplier', 'Facto.negate_spec', 'Facto.fbRow_sound', 'Facto.rowIs_sound', 'Facto.latch_step_cut', 'Facto.latch_next_eq', 'Facto.const_one_out_bool', 'Facto.latch_cell_end_to_end', 'Facto.mult_law', 'Facto.latch_value_next_eq', 'Facto.latch_value_end_to_end', "Facto.settles_around_cells", "Facto.LatchExample.accepts_reset_priority", "Facto.LatchExample.rejects_set_priority"]
 
 
 def run(res, tier):
